@@ -89,6 +89,7 @@ def _periodic_cfg(name, periods, durations):
         "SPECIFICATION FairSpec", "CONSTANTS",
         "  Periods = {%s}" % ", ".join(map(str, periods)),
         "  Durations = {%s}" % ", ".join(map(str, durations)),
+        '  Variant = "code"',
         "INVARIANTS TypeOK NoPredicateCallOnCallerThread ThreadRunsUntilAsked",
         "PROPERTIES DirectExact LagBound TerminateSticky FalseBefore TrueAfter NeverReverts ThreadStops JoinReturns"]) + "\n")
     return p
@@ -359,9 +360,10 @@ def _costconv(ck, binary, tier):
 
 # ----------------------------------------------------------------------------- timed / periodic traces
 
-def _timed_once(binary, tag, nexec, jobs, sd):
+def _timed_once(binary, tag, nexec, jobs, sd, races=0):
     tpath = os.path.join(WORK, "c18-timed-%s.ndjson" % tag)
-    rc, out, err = _hrun([binary, "timed", tpath, str(nexec), str(jobs)], timeout=1800, env={"VERIF_SEED": str(sd)})
+    rc, out, err = _hrun([binary, "timed", tpath, str(nexec), str(jobs), str(races)], timeout=1800,
+                         env={"VERIF_SEED": str(sd)})
     info = _parse(out, "RECORDED")
     return tpath, rc, out, err, info
 
@@ -373,10 +375,12 @@ def _bad_reason(res, var):
 
 
 def _timed(ck, binary, tier):
-    nexec, jobs = (48, 8) if tier == "quick" else (480, 12)
+    # races: rounds in which terminate() is forced to land while the evaluator thread is inside the predicate
+    nexec, jobs, races = (48, 8, 12) if tier == "quick" else (480, 12, 40)
+    jobs = max(2, min(jobs, vlib.NCPU))
     attempt, sd = 0, vlib.seed()
     while True:
-        tpath, rc, out, err, info = _timed_once(binary, "a%d" % attempt, nexec, jobs, sd)
+        tpath, rc, out, err, info = _timed_once(binary, "a%d" % attempt, nexec, jobs, sd, races)
         if rc == 71:
             rp = ck.replay_file("trace-timed-hang.txt", out[-2000:])
             ck.violation("timed:destroy-never-returns", "destroying a periodically evaluated termination condition did "
@@ -394,6 +398,13 @@ def _timed(ck, binary, tier):
         per = [e for e in evs if e["e"] == "Eval" and "cb" in e]
         premise = sum(1 for e in per if e["ft"] > 0 and e["cb"] > e["ft"])
         kinds = set(e["e"] for e in evs)
+        race_polls = sum(1 for e in evs if e["e"] == "Eval" and "via" in e and e["r"])
+        ck.add("timed_race_rounds", info.get("raceRounds", 0))
+        ck.add("timed_race_rounds_inconclusive", info.get("raceInconclusive", 0))
+        ck.add("timed_race_polls_after_terminate", race_polls)
+        if info.get("raceRounds", 0) < 5:
+            raise FrameworkError("vacuity gate: only %s conclusive rounds of terminate() during an in-flight predicate "
+                                 "(need 5): %s" % (info.get("raceRounds"), info))
         if info["executions"] < nexec // 2:
             raise FrameworkError("more than half of the timed executions saw a stepped wall clock: %s" % info)
         if not {"CreateTimed", "CreatePeriodic", "Eval", "Flip", "Terminate", "Destroy"} <= kinds or not premise \
@@ -500,11 +511,20 @@ def run(tier):
     # 4. the periodic and timed forms: model
     res = run_tlc("base/PTCPeriodic", cfg=_periodic_cfg(*periodic), workers=vlib.NCPU, timeout=3000, coverage=True)
     _model(ck, res, periodic[0])
-    need = {"TLoop", "TChk", "TWake", "Tick", "Flip", "CEval", "CTerminate", "CDestroy", "CJoin"}
+    need = {"TLoop", "TCall", "TStore", "TChk", "TWake", "Tick", "Flip", "CEval", "CTerminate", "CDestroy", "CJoin"}
     never = [a for a in need if res.coverage.get(a, (0, 0))[0] == 0]
     if never:
         raise FrameworkError("vacuity gate: PTCPeriodic actions never taken: %s (%s)" % (never, res.coverage))
     ck.set("periodic_actions_taken", {a: res.coverage[a][0] for a in sorted(need)})
+    # vacuity gate: the model must reach terminate() landing while the predicate is in flight - the seeded
+    # lost-update transcription (eval reads only the cached value, terminate also sets it, the evaluator
+    # stores unconditionally) differs from the library only there, and TLC must reject it
+    lost = run_tlc("base/PTCPeriodic", cfg="PTCPeriodicLost.cfg", workers=min(4, vlib.NCPU), timeout=600)
+    ck.tlc(lost, "periodic-lost-update-variant")
+    if lost.violated != "TerminateSticky":
+        raise FrameworkError("vacuity gate: the lost-update variant of PTCPeriodic is not rejected by TerminateSticky "
+                             "(violated=%s): terminate() during an in-flight predicate call is not explored" % lost.violated)
+    ck.set("periodic_lost_update_variant_rejected_by", lost.violated)
 
     # 5. cost convergence
     _costconv(ck, binary, tier)
